@@ -339,4 +339,105 @@ theorem fn_contains_nodeset_spec (d : Doc) (cfg : ECfg) (fi : Plan) (c : Ref) (a
   nodeset_arg_agrees d cfg fi c asel ctx "contains" (by simp [firstArgFns]) l _ (by simp [RestOk]) _
     (fn_contains_spec d cfg fi c asel ctx _ b)
 
+/-! ## 4. node-set arguments in *second* position (after the repair of `contains`/`starts-with`/`ends-with`)
+
+`containsFunc`, `startwithFunc`, `endwithFunc` used to demand a `string` second argument and raised
+"argument type must be string" on a node-set; now the second argument is read like the first. -/
+
+/-- functions that read their second argument as a string: a node list stands for the string-value
+of its first node (`""` when empty) -/
+def secondArgFns : List String :=
+  ["contains", "starts-with", "ends-with", "substring-before", "substring-after", "translate"]
+
+/-- **node-set in second position = its first node's string-value**, whatever the first argument's
+outcome is (a value of any type, or a failure) and whatever follows -/
+theorem nodeset_arg_is_second (d : Doc) (cfg : ECfg) (fi : Plan) (c : Ref) (asel : Option (List Ref))
+    (name : String) (hn : name ∈ secondArgFns) (a1 : Except EErr (MVal F)) (l : List Ref)
+    (rest : List (Except EErr (MVal F))) :
+    callFn (F := F) d cfg name fi c (a1 :: .ok (.nodes l) :: rest) asel
+      = callFn d cfg name fi c (a1 :: .ok (.str (Spec.toStr (F := F) d (.nodes l))) :: rest) asel := by
+  simp only [secondArgFns, List.mem_cons, List.not_mem_nil, or_false] at hn
+  rcases hn with h | h | h | h | h | h <;> subst h <;> rcases a1 with e | v
+  all_goals first
+    | (cases l <;> simp [callFn, Spec.toStr, bind, Except.bind, asStringM]; done)
+    | (rcases v with (_ | ⟨_, _⟩) | _ | _ | _ | _ | _ <;> cases l <;>
+        simp [callFn, Spec.toStr, bind, Except.bind, asStringM])
+
+/-- the oracle reads a node-set second argument through `string()`, too -/
+theorem spec_nodeset_arg_is_second (d : Doc) (ctx : Spec.Ctx) (name : String) (hn : name ∈ secondArgFns)
+    (a : Spec.Value F) (l : List Ref) (rest : List (Spec.Value F)) :
+    Spec.callFn (F := F) d ctx name (a :: .nodes l :: rest)
+      = Spec.callFn d ctx name (a :: .str (Spec.toStr (F := F) d (.nodes l)) :: rest) := by
+  simp only [secondArgFns, List.mem_cons, List.not_mem_nil, or_false] at hn
+  rcases hn with h | h | h | h | h | h <;> subst h <;>
+    rcases rest with _ | ⟨b, _ | ⟨c', r⟩⟩ <;> rfl
+
+/-- the three string tests -/
+def strTestFns : List String := ["contains", "starts-with", "ends-with"]
+
+/-- what a string test computes on two strings (shared by both sides) -/
+def strTestOf (name : String) (a b : String) : Bool :=
+  if name = "starts-with" then Spec.fnStartsWith a b
+  else if name = "ends-with" then Spec.fnEndsWith a b
+  else Spec.fnContains a b
+
+/-- **`contains` / `starts-with` / `ends-with` with a string or a node-set in EITHER position**: the
+engine's answer is the oracle's, namely the test on the two string-values (`Spec.toStr`: a string
+as it is, a node list as the string-value of its first node, `""` when empty) -/
+theorem fn_strtest_strlike_spec (d : Doc) (cfg : ECfg) (fi : Plan) (c : Ref) (asel : Option (List Ref))
+    (ctx : Spec.Ctx) (name : String) (hn : name ∈ strTestFns) (va vb : Spec.Value F)
+    (ha : StrLike va) (hb : StrLike vb) :
+    callFn (F := F) d cfg name fi c [.ok (emb va), .ok (emb vb)] asel =
+      .ok (.bool (strTestOf name (Spec.toStr d va) (Spec.toStr d vb))) ∧
+    Spec.callFn (F := F) d ctx name [va, vb] =
+      .ok (.bool (strTestOf name (Spec.toStr d va) (Spec.toStr d vb))) := by
+  simp only [strTestFns, List.mem_cons, List.not_mem_nil, or_false] at hn
+  rcases hn with h | h | h <;> subst h <;> refine ⟨?_, rfl⟩ <;>
+    cases ha with
+    | str s =>
+      cases hb with
+      | str t => simp [callFn, emb, Spec.toStr, strTestOf, bind, Except.bind]
+      | nodes l => cases l <;> simp [callFn, emb, Spec.toStr, strTestOf, bind, Except.bind]
+    | nodes l1 =>
+      cases hb with
+      | str t => cases l1 <;> simp [callFn, emb, Spec.toStr, strTestOf, bind, Except.bind]
+      | nodes l => cases l1 <;> cases l <;> simp [callFn, emb, Spec.toStr, strTestOf, bind, Except.bind]
+
+theorem fn_strtest_strlike_agrees (d : Doc) (cfg : ECfg) (fi : Plan) (c : Ref) (asel : Option (List Ref))
+    (ctx : Spec.Ctx) (name : String) (hn : name ∈ strTestFns) (va vb : Spec.Value F)
+    (ha : StrLike va) (hb : StrLike vb) :
+    Agrees (F := F) (callFn d cfg name fi c [.ok (emb va), .ok (emb vb)] asel)
+      (Spec.callFn d ctx name [va, vb]) := by
+  obtain ⟨h1, h2⟩ := fn_strtest_strlike_spec d cfg fi c asel ctx name hn va vb ha hb
+  exact ⟨_, h2, by rw [h1]; rfl⟩
+
+/-- instance: `contains(string, node list)` — an error ("argument type must be string") before the
+repair -/
+theorem fn_contains_nodeset2_spec (d : Doc) (cfg : ECfg) (fi : Plan) (c : Ref) (asel : Option (List Ref))
+    (ctx : Spec.Ctx) (a : String) (l : List Ref) :
+    Agrees (F := F) (callFn d cfg "contains" fi c [.ok (.str a), .ok (.nodes l)] asel)
+      (Spec.callFn d ctx "contains" [.str a, .nodes l]) :=
+  fn_strtest_strlike_agrees d cfg fi c asel ctx "contains" (by simp [strTestFns]) (.str a) (.nodes l)
+    (.str a) (.nodes l)
+
+/-- what still raises: a number or a boolean in either position (the package's tests pin
+`contains(0, 0)` as an error) -/
+theorem fn_strtest_raises (d : Doc) (cfg : ECfg) (fi : Plan) (c : Ref) (asel : Option (List Ref))
+    (name : String) (hn : name ∈ strTestFns) (v w : MVal F)
+    (hw : (∃ x, w = .num x) ∨ (∃ b, w = .bool b)) :
+    callFn (F := F) d cfg name fi c [.ok w, .ok v] asel = .error (.raised name) ∧
+    ((∃ s, v = .str s) ∨ (∃ l, v = .nodes l) →
+      callFn (F := F) d cfg name fi c [.ok v, .ok w] asel = .error (.raised name)) := by
+  simp only [strTestFns, List.mem_cons, List.not_mem_nil, or_false] at hn
+  rcases hn with h | h | h <;> subst h <;> rcases hw with ⟨x, rfl⟩ | ⟨b, rfl⟩ <;>
+    refine ⟨by simp [callFn, bind, Except.bind], ?_⟩ <;>
+    rintro (⟨s, rfl⟩ | ⟨l, rfl⟩) <;> first
+      | (simp [callFn, bind, Except.bind]; done)
+      | (cases l <;> simp [callFn, bind, Except.bind])
+
 end XPathV.StringFns
+
+/-! ## Axiom audit (second-position node-set arguments) -/
+section AxiomAudit
+open XPathV.StringFns
+end AxiomAudit
